@@ -163,10 +163,12 @@ func step(newSys func() Sys, path []uint16, op int) (canon string, enabled bool,
 	bfsJournalPath = pathInts(path, op)
 	c = runOne(func(c *Ctx) {
 		s = newSys()
+		c.InPrefix = true // these operations were checked when their state was first reached: a Sys may skip expensive oracles
 		for _, p := range path {
 			c.Note("%s", s.OpName(int(p)))
 			s.Apply(c, int(p))
 		}
+		c.InPrefix = false
 		if !s.Enabled(op) {
 			return
 		}
